@@ -66,22 +66,17 @@ Lemma fill_spec b b' np :
   (b_err b' = None -> length (b_buf b) < length (b_buf b')).
 Proof.
   intros [Hl He] Hlt H. unfold fill, max_empty_reads in H. rewrite fill_loop_S in H.
-  destruct (src_read (bsize - length (b_buf b)) (b_src b)) as [[d e] s'] eqn:Es.
+  destruct (src_read (bsize - length (b_buf b)) (b_src b)) as [[d e] s'] eqn:Es. cbv zeta in H. cbn [b_buf] in H.
   apply src_read_spec in Es; [|lia]. destruct Es as (E1 & E2 & E3 & E4 & E5 & E6 & E7).
   destruct e as [x|].
   - inversion H; subst b' np; clear H. destruct (E6 x eq_refl) as [Ex Er].
-    unfold abs, Inv; cbn [b_buf b_err b_src]. rewrite E1, E2, app_assoc. repeat split; auto.
-    + rewrite app_length. lia.
-    + congruence.
-    + eauto.
-    + discriminate.
-  - specialize (E7 eq_refl). destruct d as [|c d]; [congruence|].
+    unfold abs, Inv; cbn [b_buf b_err b_src]. rewrite E1, E2, app_assoc.
+    repeat split; auto; try discriminate; try (rewrite app_length; lia); eauto.
+  - specialize (E7 eq_refl). destruct d as [|c d]; [exfalso; apply E7; reflexivity|].
     inversion H; subst b' np; clear H.
-    unfold abs, Inv; cbn [b_buf b_err b_src]. rewrite E1, E2, app_assoc. repeat split; auto.
-    + rewrite app_length. lia.
-    + destruct (b_err b) as [e|]; auto. destruct He as [Hr _]. rewrite Hr in E1. destruct (c :: d); discriminate.
-    + eauto.
-    + intros _. rewrite app_length. cbn. lia.
+    unfold abs, Inv; cbn [b_buf b_err b_src]. rewrite E1, E2, app_assoc.
+    repeat split; auto; try discriminate; try (rewrite app_length; cbn [length] in *; lia); eauto.
+    destruct (b_err b) as [e|]; auto. destruct He as [Hr _]. rewrite Hr in E1. discriminate.
 Qed.
 
 (* ---- ReadByte -------------------------------------------------------------------------------------------------- *)
